@@ -195,6 +195,7 @@ pub fn run_topic(topic: &str, cx: &mut Ctx) -> bool {
         "fold" => fold(cx),
         "refs" => refs(cx),
         "parse_eval" => parse_eval(cx),
+        "total" => total(cx),
         _ => return false,
     }
     true
@@ -1321,6 +1322,86 @@ pub fn parse_eval(cx: &mut Ctx) {
                 c.forms = forms(&["bound", "full", "randparen", "ws", "lit"]);
                 cx.out(c);
             }
+        }
+    }
+}
+
+// ---------------------------------------------------------------------------------------------
+// C01: totality - every built-in on every argument shape, every operator on the boundary pool
+
+pub const FUNC_NAMES: &[&str] = &[
+    "contains", "containsI", "size", "sort", "startsWith", "endsWith", "startsWithI", "endsWithI", "matches", "matchCaptures",
+    "matchReplaceOnce", "matchReplace", "toLower", "toUpper", "remove", "replace", "rsplit", "split", "splitAt", "trim", "trimStart",
+    "trimStartMatches", "trimEnd", "trimEndMatches", "splitWhiteSpace", "abs", "sqrt", "pow", "log", "lg", "ceil", "floor", "round",
+    "min", "max", "getDate", "getDayOfMonth", "getDayOfWeek", "getDayOfYear", "getFullYear", "getHours", "getMilliseconds", "getMinutes",
+    "getMonth", "getSeconds", "now", "zip", "uomConvert",
+    "has", "all", "exists", "exists_one", "filter", "map", "reduce", "coalesce",
+    "bool", "int", "uint", "float", "double", "string", "bytes", "type", "timestamp", "duration", "dyn", "null_type",
+];
+
+pub fn total(cx: &mut Ctx) {
+    let mut pool = boundary_pool();
+    pool.extend([V::Str("abc".into()), V::Str("héllo wörld".into()), V::Str("(".into()), V::Str("a*".into()), V::Str("UTC".into()), V::Str("US/Pacific".into()), V::Str("1h".into()), V::Str("2024-02-29T12:00:00Z".into()), V::Str("m".into()), V::Int(10), V::Int(-10), V::Int(64), V::Dbl(2.0), V::Dbl(-2.5), V::List(vec![V::Int(3), V::Int(1)]), V::List(vec![V::Str("a".into()), V::Int(1)])]);
+    let mut emit = |cx: &mut Ctx, t: T, binds: Vec<(String, V)>| {
+        let mut c = cx.case(t);
+        for (k, v) in binds {
+            c.bind.insert(k, v);
+        }
+        c.forms = forms(&["bound", "lit"]);
+        cx.out(c);
+    };
+    for f in FUNC_NAMES {
+        emit(cx, call(f, vec![]), vec![]);
+        for a in pool.iter() {
+            emit(cx, call(f, vec![id("x")]), vec![("x".into(), a.clone())]);
+            emit(cx, mcall(id("x"), f, vec![]), vec![("x".into(), a.clone())]);
+        }
+        let n2 = if cx.thorough { pool.len() * pool.len() } else { 120 };
+        for k in 0..n2 {
+            let (a, b) = if cx.thorough { (pool[k / pool.len()].clone(), pool[k % pool.len()].clone()) } else { (cx.rng.pick(&pool).clone(), cx.rng.pick(&pool).clone()) };
+            emit(cx, call(f, vec![id("x"), id("y")]), vec![("x".into(), a.clone()), ("y".into(), b.clone())]);
+            emit(cx, mcall(id("x"), f, vec![id("y")]), vec![("x".into(), a), ("y".into(), b)]);
+        }
+        let n3 = if cx.thorough { 600 } else { 40 };
+        for _ in 0..n3 {
+            let vals: Vec<V> = (0..4).map(|_| cx.rng.pick(&pool).clone()).collect();
+            let nargs = 2 + cx.rng.below(3) as usize;
+            let args: Vec<T> = (0..nargs).map(|i| id(&format!("a{}", i))).collect();
+            let binds: Vec<(String, V)> = (0..4).map(|i| (format!("a{}", i), vals[i].clone())).collect();
+            if cx.rng.chance(1, 2) {
+                emit(cx, call(f, args), binds);
+            } else {
+                emit(cx, mcall(id("a3"), f, args[..nargs - 1].to_vec()), binds);
+            }
+        }
+    }
+    // string functions with fixed receivers and boundary offsets / needles
+    for (f, args) in [("splitAt", vec![V::Int(10)]), ("splitAt", vec![V::Int(2)]), ("splitAt", vec![V::Int(-1)]), ("splitAt", vec![V::Uint(u64::MAX)]), ("splitAt", vec![V::Int(1)]),
+        ("split", vec![V::Str("".into())]), ("rsplit", vec![V::Str("".into())]), ("replace", vec![V::Str("".into()), V::Str("x".into())]), ("matches", vec![V::Str("(".into())]),
+        ("matchReplace", vec![V::Str("(".into()), V::Str("$1".into())]), ("matchCaptures", vec![V::Str("(é)(l+)".into())]), ("trimStartMatches", vec![V::Str("".into())]), ("remove", vec![V::Str("".into())])] {
+        for recv in ["héllo", "", "abc", "𝄞𝄞", "aaa"] {
+            let argt: Vec<T> = (0..args.len()).map(|i| id(&format!("a{}", i))).collect();
+            let mut binds: Vec<(String, V)> = args.iter().enumerate().map(|(i, v)| (format!("a{}", i), v.clone())).collect();
+            binds.push(("r".into(), V::Str(recv.into())));
+            emit(cx, mcall(id("r"), f, argt), binds);
+        }
+    }
+    // operators on the whole pool
+    let ops = ["+", "-", "*", "/", "%", "<", "<=", "==", "!=", ">=", ">", "in", "||", "&&"];
+    for op in ops {
+        for a in pool.iter() {
+            for b in pool.iter() {
+                if cx.thorough || cx.rng.below(6) == 0 {
+                    emit(cx, bin(op, id("x"), id("y")), vec![("x".into(), a.clone()), ("y".into(), b.clone())]);
+                }
+            }
+        }
+    }
+    for a in pool.iter() {
+        for t in [un('-', 1, id("x")), un('!', 1, id("x")), idx(id("x"), id("x")), sel(id("x"), "a"), tern(id("x"), id("x"), id("x")), T::List(vec![id("x"), id("x")]), T::Map(vec![(id("x"), id("x"))]),
+            bin("!=", T::List(vec![id("x")]), T::List(vec![bin("/", lit(V::Int(1)), lit(V::Int(0)))])), T::FStr(vec![Seg::Expr(id("x"))]),
+            T::Match { e: Box::new(id("x")), cases: vec![(Pat::Type("int".into()), lit(V::Int(1))), (Pat::Cmp("<".into(), id("x")), lit(V::Int(2))), (Pat::Type("dyn".into()), lit(V::Int(3))), (Pat::Type("type".into()), lit(V::Int(4))), (Pat::Type("null_type".into()), lit(V::Int(5)))] }] {
+            emit(cx, t, vec![("x".into(), a.clone())]);
         }
     }
 }
